@@ -531,7 +531,7 @@ def _values_and_names_in_c(ctx, rep, tier):
             if model.has_func(c):
                 out += model.func(c).body
         return out
-    lit = r"is_literal\(\)|get_literal_result\(\)"
+    lit = r"is_literal\(\)|get_literal_result\(\)|_constant_value_of\(|shift_count"
     setto = [st for classes, body in aarms if "SetTo" in classes for st in body]
     for what, stmts, probe, example in (
             ("constant divisor", where({"MulIntegerExpr"}, ["MulIntegerExpr.__init__"]), lit, "`x = [x / 0];` -> -Wdiv-by-zero"),
@@ -539,7 +539,14 @@ def _values_and_names_in_c(ctx, rep, tier):
             ("constant fits its destination", setto + where({"LiteralIntegerExpr"}, []), lit + r"|int_width|maxval", "`out int{size 1} x; x = 300;` -> -Woverflow"),
             ("comparison operand kinds", where({"CompareIntegerExpr"}, ["CompareIntegerExpr.__init__"]), r"result_type\(\)|== intexpr\.right|is intexpr\.right",
              "`if x == x`, `(x < 2) > 3`, two different enums -> -Wtautological-compare / -Wbool-compare / -Wenum-compare")):
-        rep.check(guarded_raise(stmts, probe), "C11.n", gen, f"value-level gcc diagnostics: {what}", f"accepted and emitted unchecked: {example}; the generated source does not compile under -Wall -Werror")
+        ok_n = guarded_raise(stmts, probe)
+        if what == "constant fits its destination":
+            # delegated to a helper called from the assignment template and from start(): the helper refuses, both call it before rendering
+            helper = model.functions.get("CodegenCtx._check_constant_fits")
+            ok_n = helper is not None and guarded_raise(helper.body, r"int_signed|bits") and \
+                any("self._check_constant_fits(action.value_expr, target)" in ast.unparse(st) for st in setto) and \
+                model.has("CodegenCtx._generate_start_implementation", "self._check_constant_fits(out_expr.default_value, out_expr)")
+        rep.check(ok_n, "C11.n", gen, f"value-level gcc diagnostics: {what}", f"accepted and emitted unchecked: {example}; the generated source does not compile under -Wall -Werror")
 
 
 _run_nop = run
